@@ -740,6 +740,12 @@ func (p *Parser) parseContentLength() (err error) {
 				break
 			}
 		}
+		// Content-Length = 1*DIGIT: ParseInt alone would also accept a sign.
+		for i := 0; i < len(cl); i++ {
+			if cl[i] < '0' || cl[i] > '9' {
+				return fmt.Errorf("%s %q", "bad Content-Length", cl)
+			}
+		}
 		l, err := strconv.ParseInt(cl, 10, 63)
 		if err != nil {
 			return fmt.Errorf("%s %q", "bad Content-Length", cl)
